@@ -267,7 +267,26 @@ ARG_CLASSES = {
 }
 
 
+# total charge = integer part (by the sequence) + delta on the internal
+# glycine's CA: every fractional regime on both sides of zero
+FRACTION_BASES = {"0": ["GLY", "GLY", "GLY"], "+2": ["LYS", "GLY", "LYS"],
+                  "-2": ["ASP", "GLY", "ASP"], "+1": ["GLY", "GLY", "LYS"],
+                  "-1": ["ASP", "GLY", "GLY"]}
+FRACTION_DELTAS = (0.002, 0.3, 0.49, 0.5, 0.51, 0.7, 0.998,
+                   -0.002, -0.3, -0.49, -0.5, -0.51, -0.7, -0.998)
+
+
+_INPUT_CLASSES = None
+
+
 def input_classes():
+    global _INPUT_CLASSES
+    if _INPUT_CLASSES is None:
+        _INPUT_CLASSES = _input_classes()
+    return _INPUT_CLASSES
+
+
+def _input_classes():
     good = build.build_peptide(["ALA", "SER", "GLY"])
     his = build.build_peptide(["ALA", "HIS", "GLY"])
     many_missing = build.build_peptide(
@@ -282,7 +301,19 @@ def input_classes():
     dat = (engine.REPO / "pdb2pqr/dat/AMBER.DAT").read_text().replace(
         "GLY\tCA\t-0.025200", "GLY\tCA\t-0.325200")
     names = (engine.REPO / "pdb2pqr/dat/AMBER.names").read_text()
+    frac = {}
+    amber = (engine.REPO / "pdb2pqr/dat/AMBER.DAT").read_text()
+    for label, seq in FRACTION_BASES.items():
+        for delta in FRACTION_DELTAS:
+            d2 = amber.replace("GLY\tCA\t-0.025200",
+                               f"GLY\tCA\t{-0.0252 + delta:.6f}")
+            assert d2 != amber
+            frac[f"fractional:{label}:{delta:+.3f}"] = (
+                build.pdb_text(build.build_peptide(seq)),
+                ["--userff=@u.dat", "--usernames=@u.names"],
+                {"u.dat": d2, "u.names": names})
     return {
+        **frac,
         "empty-file": ("", ["--ff=AMBER"], None),
         "header-only": ("HEADER    NOTHING\nREMARK   1\nEND\n", ["--ff=AMBER"],
                         None),
@@ -378,12 +409,32 @@ def run_success_case(case):
                 a["chain"] = "Z"
             atoms = lin + atoms
         label = f"{ff}/cyclic+linear-{case['other']}"
+    elif case["kind"] == "s3":
+        from .. import s3
+
+        built = s3.build_case(case["desc"])
+        atoms = None
+        text_override = built[0]
+        d = case["desc"]
+        label = (f"{ff}/{d['x']}@{d['pos']}/"
+                 + "+".join(":".join(map(str, e)) for e in d["env"]))
+        opts = [f"--ff={ff}"] + list(s3.OPTION_SETS[d["opt"]])
+        if d["opt"] != "default":
+            label += f"/opt={d['opt']}"
     elif case["kind"] == "host":
         # one water next to the peptide, one far away from everything
         atoms, _info = corpus.build_host({"x": case["x"], "pos": case["pos"],
                                           "waters": [[9.0, 9.0, 9.0],
                                                      [60.0, -45.0, 70.0]]})
         label = f"{ff}/{case['x']}@{case['pos']}"
+        if case.get("water_names"):
+            wres, wo = case["water_names"]
+            for a in atoms:
+                if a["record"] == "HETATM" and a["res_name"] == "HOH":
+                    a["res_name"] = wres
+                    if a["name"] == "O":
+                        a["name"] = wo
+            label += f"/water:{wres}:{wo}"
     else:
         atoms = build.build_strand(case["seq"], naming=case["naming"])
         label = f"{ff}/strand:{case['naming']}:{'-'.join(case['seq'])}"
@@ -438,6 +489,10 @@ def enumerate_cases(tier, seed):
                  "too-many-missing", "fractional-user-charges",
                  "his-without-h-assign-only", "good-control"]:
         cases.append({"mode": "input", "name": name})
+    for label in FRACTION_BASES:
+        for delta in FRACTION_DELTAS:
+            cases.append({"mode": "input",
+                          "name": f"fractional:{label}:{delta:+.3f}"})
     structures = ["peptide"] + (["strand"] if tier == "thorough" else [])
     for st in structures:
         for site in SITE_NAMES:
@@ -461,6 +516,25 @@ def enumerate_cases(tier, seed):
             for tail in ("water", "ion", "water+ion"):
                 cases.append({"mode": "success", "kind": "strand", "ff": ff,
                               "seq": seq, "naming": "legacy", "tail": tail})
+    # alternative atom / residue spellings of the topology files
+    from .. import s3
+
+    for d in s3.alias_cases(ffs=("AMBER",) if tier == "quick"
+                            else ("AMBER", "PARSE", "CHARMM"),
+                            names=corpus.INPUT_NAMES):
+        cases.append({"mode": "success", "kind": "s3", "ff": d["ff"],
+                      "desc": d})
+    for ff in corpus.FFS:
+        for wn in (("HOH", "OW"), ("HOH", "OH2"), ("WAT", "O"),
+                   ("WAT", "OW"), ("WAT", "OH2")):
+            for opts in ([], ["--noopt"]):
+                cases.append({"mode": "success", "kind": "host", "ff": ff,
+                              "x": "SER", "pos": "mid", "water_names": wn,
+                              "opts": opts})
+    for ff in corpus.NUCLEIC_FFS:
+        for seq in (["DA", "DT", "DG", "DC"], ["RA", "RU", "RG", "RC"]):
+            cases.append({"mode": "success", "kind": "strand", "ff": ff,
+                          "seq": seq, "naming": "star"})
     # chain layouts, ring + linear chain, multi-instance structures
     for ff in ("AMBER", "PARSE"):
         for layout in corpus.LAYOUTS:
